@@ -110,19 +110,26 @@ Definition state_eqb (strict dirty : bool) (s : state) (real : list (node * ndum
 (** runs the model over the history; returns the index of the first operation after which
     result or state differ.  Dirty marks are compared under the same restriction as the
     statistic (until the first firewall/projection re-execution of an epoch). *)
-Fixpoint states_diff_gen (stepf : state -> op -> state * opres) (strict : bool) (i : N) (stat : bool) (s : state)
+(** [projs]: the program has projections.  Then, once a firewall or projection has been
+    re-executed, dirty marks (and the statistic) are not compared any more for the rest of the
+    history: a changed firewall sends its dirt up through the projections above it exactly when
+    it is reached by an executor (for instance the re-run of a projection by a sibling's backward
+    projection) before its own transitive-firewall repair task, so which clean-able edges above
+    a projection carry a mark depends on task order, and marks survive sessions. *)
+Fixpoint states_diff_gen (stepf : state -> op -> state * opres) (projs strict : bool) (i : N) (stat : bool) (s : state)
          (ops : list op) (real : list opres) (states : list (list (node * ndump))) : option N :=
   match ops, real, states with
   | [], [], [] => None
   | o :: ops', y :: real', st :: states' =>
       let '(s', x) := stepf s o in
-      let stat1 := (stat || is_session y) && negb (has_fw_exec y) && negb (has_fw_exec x) in
+      let stat1 := (stat || (is_session y && negb projs)) && negb (has_fw_exec y) && negb (has_fw_exec x) in
       if opres_eqb_gen strict stat1 x y && state_eqb strict stat1 s' st
-      then states_diff_gen stepf strict (i + 1) stat1 s' ops' real' states'
+      then states_diff_gen stepf projs strict (i + 1) stat1 s' ops' real' states'
       else Some i
   | _, _, _ => Some i
   end.
-Definition states_diff (strict : bool) (p : program) := states_diff_gen (step p) strict.
+Definition has_projection (p : program) : bool := existsb (fun '(n, _) => kind_eqb (nkind n) KProjection) p.
+Definition states_diff (strict : bool) (p : program) := states_diff_gen (step p) (has_projection p) strict.
 
 Definition check (c : case) : bool :=
   match c with
@@ -180,7 +187,7 @@ Definition check_fw (c : case) : bool :=
   | mkCase p ops real =>
       match first_diff 0 (frun_history p init_state ops) real with None => true | Some _ => false end
   | mkCaseS strict p ops real states =>
-      match states_diff_gen (fstep_f fuel0 p) strict 0 true init_state ops real states with None => true | Some _ => false end
+      match states_diff_gen (fstep_f fuel0 p) false strict 0 true init_state ops real states with None => true | Some _ => false end
   end.
 Fixpoint fw_failures_from (i : N) (cs : list case) : list N :=
   match cs with
